@@ -1,18 +1,22 @@
 import TracklibVerif.Model.Graph
 import TracklibVerif.Model.GraphSession
-/-! Model of the routing-method API of `tracklib/core/network.py` and of the A* branch of `run_routing_forward`:
+/-! Model of the routing-method API of `tracklib/core/network.py` and of the A* branch of `run_routing_forward`
+(as it is after fix c78e3ab):
 
 * `Network.__init__`: `self.routing_mode = Network.ROUTING_ALGO_DIJKSTRA` (0), `self.astar_wgt = 1` — **instance**
   attributes; `setRoutingMethod(method)` / `setAStarWeight(weight)` assign them on `self`.
 * `run_routing_forward`: the local `heuristic = 0`; inside the relaxation
-  `if (self.routing_mode == 1) and not (target is None): heuristic = self.astar_wgt * fils.distanceTo(self.NODES[target])`
-  and then `fils.poids = pere.poids + e.weight + heuristic`. The relaxation *test* stays `pere.poids + e.weight < fils.poids`
-  and the queue priority is `fils.poids`: the code as it is stores `g + h` in `poids` and adds the next edge on top of it,
-  so the heuristic terms of all nodes on the way accumulate in the label (`relaxOneH` mirrors exactly that; it is not
-  the textbook A*, whose label is `g` and whose priority is `g + h` — `popMinKey` / `forwardFix` below is that variant,
-  the repair proposed in `findings/C06.json`).
+  `if (self.routing_mode == 1) and not (target is None): heuristic = self.astar_wgt * fils.distanceTo(self.NODES[target])`,
+  then `fils.poids = pere.poids + e.weight` and `fil.__setitem__(fils, fils.poids + heuristic)`: the node label is the
+  travelled distance `g` (so the relaxation is `relaxOne` of `Model/Graph.lean`, the stop test `pere.poids > cut` compares
+  `g` with the cut-off and `output_dict` receives `g`), the heuristic enters the **queue priority** `g + h` only
+  (`popMinKey`). With no target (or `routing_mode != 1`) `heuristic` keeps its initial value 0. The source enters the queue
+  with priority `poids = 0` — it is alone there, so its priority is never compared.
 * `Node.distanceTo` → `ENUCoords.distanceTo` → `(point - self).norm()` = `sqrt(E**2 + N**2 + U**2)`.
 * several `Network` objects alive at the same time (`World`), each with its own settings.
+
+The last section, "the A* branch before fix c78e3ab", keeps the pre-fix loop (`…HOld`: `poids = g + h`, the next edge added
+on top of it) as the documented defective variant; nothing but its own lemmas refers to it.
 
 Core Lean only. -/
 namespace TV.Graph
@@ -58,49 +62,11 @@ def heuristicOf [Sub W] [Mul W] [Add W] [OfNat W 0] (sqrt : W → W) (pos : Nat 
 
 variable [LT W] [DecidableLT W] [Add W]
 
-/-- the relaxation as coded, `h v` being the value of `heuristic` for `fils = v`:
-`if (fils.poids == -1) or (pere.poids + e.weight < fils.poids): fils.poids = pere.poids + e.weight + heuristic` -/
-def relaxOneH (h : Nat → W) (u : Nat) (du : W) (st : St W) (e : Edge W) : St W :=
-  let v := other e u
-  if st.vis v then st else
-  let upd : St W := { st with d := fun z => if z = v then some (du + e.w + h v) else st.d z,
-                              pred := fun z => if z = v then some (u, e.id) else st.pred z }
-  match st.d v with
-  | none => upd
-  | some y => if du + e.w < y then upd else st
+/-! ### the loop with the heuristic in the queue priority: label `g`, priority `g + h` -/
 
-def settleH (net : Net W) (h : Nat → W) (st : St W) (u : Nat) (du : W) : St W :=
-  (nextEdges net u).foldl (relaxOneH h u du) { st with vis := fun z => if z = u then true else st.vis z }
-
-/-- the `while len(fil) != 0` loop with the heuristic term (same stop tests, same recording as `forward`); the queue
-holds the unsettled labelled nodes with priority `poids` -/
-def forwardH (net : Net W) (h : Nat → W) (target : Option Nat) (cut : Option W) :
-    Nat → St W → List (Nat × W) → St W × List (Nat × W)
-  | 0, st, out => (st, out)
-  | f+1, st, out =>
-    match popMinAux st net.n with
-    | none => (st, out)
-    | some (u, du) =>
-      if stops target cut u du then (st, out)
-      else forwardH net h target cut f (settleH net h st u du) (out ++ [(u, du)])
-
-/-- `run_routing_forward(source, target, cut)` on a fresh labelling, with the heuristic values `h` -/
-def runForwardH [OfNat W 0] (net : Net W) (h : Nat → W) (s : Nat) (target : Option Nat) (cut : Option W) :
-    St W × List (Nat × W) :=
-  forwardH net h target cut net.n (St.init s) []
-
-/-- `shortest_distance(source, target, cut)` when `heuristic` takes the values `h` -/
-def shortestDistanceH [OfNat W 0] (net : Net W) (h : Nat → W) (s t : Nat) (cut : Option W) : Option W :=
-  (runForwardH net h s (some t) cut).1.d t
-
-/-- as `routeOn` (`Model/GraphSession.lean`), with the heuristic term -/
-def routeOnH [OfNat W 0] (net : Net W) (order : List Nat) (st : St W) (h : Nat → W) (s : Nat) (tgt : Option Nat)
-    (cut : Option W) : St W × List (Nat × W) :=
-  forwardH net h tgt cut net.n (startFlags order st s) []
-
-/-! ### the textbook variant (proposed repair): label `g`, queue priority `g + h` -/
-
-/-- pop the unsettled labelled node with the smallest `(poids + h, id)` -/
+/-- `fil.pop_smallest()` when every queue entry was set by `fil[fils] = fils.poids + heuristic`: the unsettled labelled
+node with the smallest `(poids + h, id)` (scan in id order keeping the first strict minimum); the popped node comes with
+its label `poids`, which is what the stop test and `output_dict` read -/
 def popMinKey (h : Nat → W) (st : St W) : Nat → Option (Nat × W)
   | 0 => none
   | k+1 =>
@@ -112,8 +78,9 @@ def popMinKey (h : Nat → W) (st : St W) : Nat → Option (Nat × W)
       | none => some (k, x)
       | some (u, y) => if x + h k < y + h u then some (k, x) else some (u, y)
 
-/-- `forward` with `fil[fils] = fils.poids + heuristic` instead of adding `heuristic` into `fils.poids` -/
-def forwardFix (net : Net W) (h : Nat → W) (target : Option Nat) (cut : Option W) :
+/-- the `while len(fil) != 0` loop, `h v` being the value of `heuristic` for `fils = v`: same stop tests, same recording,
+same relaxation (`settle`) as `forward`; only the queue order differs -/
+def forwardH (net : Net W) (h : Nat → W) (target : Option Nat) (cut : Option W) :
     Nat → St W → List (Nat × W) → St W × List (Nat × W)
   | 0, st, out => (st, out)
   | f+1, st, out =>
@@ -121,10 +88,21 @@ def forwardFix (net : Net W) (h : Nat → W) (target : Option Nat) (cut : Option
     | none => (st, out)
     | some (u, du) =>
       if stops target cut u du then (st, out)
-      else forwardFix net h target cut f (settle net st u du) (out ++ [(u, du)])
+      else forwardH net h target cut f (settle net st u du) (out ++ [(u, du)])
 
-def shortestDistanceFix [OfNat W 0] (net : Net W) (h : Nat → W) (s t : Nat) (cut : Option W) : Option W :=
-  (forwardFix net h (some t) cut net.n (St.init s) []).1.d t
+/-- `run_routing_forward(source, target, cut, output_dict)` on a fresh labelling, with the heuristic values `h` -/
+def runForwardH [OfNat W 0] (net : Net W) (h : Nat → W) (s : Nat) (target : Option Nat) (cut : Option W) :
+    St W × List (Nat × W) :=
+  forwardH net h target cut net.n (St.init s) []
+
+/-- `shortest_distance(source, target, cut)` when `heuristic` takes the values `h` -/
+def shortestDistanceH [OfNat W 0] (net : Net W) (h : Nat → W) (s t : Nat) (cut : Option W) : Option W :=
+  (runForwardH net h s (some t) cut).1.d t
+
+/-- as `routeOn` (`Model/GraphSession.lean`): `__resetFlags` over the object's own nodes, then the loop with the heuristic -/
+def routeOnH [OfNat W 0] (net : Net W) (order : List Nat) (st : St W) (h : Nat → W) (s : Nat) (tgt : Option Nat)
+    (cut : Option W) : St W × List (Nat × W) :=
+  forwardH net h tgt cut net.n (startFlags order st s) []
 
 /-! ### one `Network` object with its routing settings; several objects alive at the same time -/
 
@@ -219,4 +197,49 @@ def answersOn (k : Nat) : List (WorldOp W) → List (Out W) → List (Out W)
   | .on j _ :: rest, a :: as => if j = k then a :: answersOn k rest as else answersOn k rest as
   | .create _ _ :: rest, _ :: as => answersOn k rest as
   | _, _ => []
+/-! ### the A* branch before fix c78e3ab (documented pre-fix variant, not a model of any current code)
+
+`fils.poids = pere.poids + e.weight + heuristic; fil[fils] = fils.poids`: the label held `g + h`, the next edge was added on
+top of it, so the heuristic terms of all nodes on the way accumulated in the label, the relaxation test compared a label
+with heuristic against a candidate without, and the cut-off test saw inflated labels (finding
+`astar-label-accumulates-heuristic`, repaired by c78e3ab). Kept so that `TV.C06.astar_old_inflates` can state what was
+wrong; reverting the fix makes the harness disagree with `forwardH` above and fail the oracle on the corpus witness. -/
+section old
+variable {V : Type} [LT V] [DecidableLT V] [Add V]
+
+/-- PRE-FIX relaxation, `h v` being the value of `heuristic` for `fils = v`:
+`if (fils.poids == -1) or (pere.poids + e.weight < fils.poids): fils.poids = pere.poids + e.weight + heuristic` -/
+def relaxOneHOld (h : Nat → V) (u : Nat) (du : V) (st : St V) (e : Edge V) : St V :=
+  let v := other e u
+  if st.vis v then st else
+  let upd : St V := { st with d := fun z => if z = v then some (du + e.w + h v) else st.d z,
+                              pred := fun z => if z = v then some (u, e.id) else st.pred z }
+  match st.d v with
+  | none => upd
+  | some y => if du + e.w < y then upd else st
+
+/-- PRE-FIX -/
+def settleHOld (net : Net V) (h : Nat → V) (st : St V) (u : Nat) (du : V) : St V :=
+  (nextEdges net u).foldl (relaxOneHOld h u du) { st with vis := fun z => if z = u then true else st.vis z }
+
+/-- PRE-FIX loop: the queue holds the unsettled labelled nodes with priority `poids` (= `g` + accumulated heuristic) -/
+def forwardHOld (net : Net V) (h : Nat → V) (target : Option Nat) (cut : Option V) :
+    Nat → St V → List (Nat × V) → St V × List (Nat × V)
+  | 0, st, out => (st, out)
+  | f+1, st, out =>
+    match popMinAux st net.n with
+    | none => (st, out)
+    | some (u, du) =>
+      if stops target cut u du then (st, out)
+      else forwardHOld net h target cut f (settleHOld net h st u du) (out ++ [(u, du)])
+
+/-- PRE-FIX `run_routing_forward(source, target, cut)` -/
+def runForwardHOld [OfNat V 0] (net : Net V) (h : Nat → V) (s : Nat) (target : Option Nat) (cut : Option V) :
+    St V × List (Nat × V) :=
+  forwardHOld net h target cut net.n (St.init s) []
+
+/-- PRE-FIX `shortest_distance(source, target, cut)` -/
+def shortestDistanceHOld [OfNat V 0] (net : Net V) (h : Nat → V) (s t : Nat) (cut : Option V) : Option V :=
+  (runForwardHOld net h s (some t) cut).1.d t
+end old
 end TV.Graph
